@@ -256,7 +256,14 @@ func (p *printer) op(o *Op) {
 					}
 					p.sep(false)
 				}
-				p.raw("$" + v.Name + ": " + v.Type.String())
+				if p.lay.Mode == 2 {
+					// one token per line: the variable's name ends its line
+					p.raw("$" + v.Name)
+					p.sep(false)
+					p.raw(": " + v.Type.String())
+				} else {
+					p.raw("$" + v.Name + ": " + v.Type.String())
+				}
 				if v.HasDefault {
 					p.raw(" = " + ValueText(v.Default))
 				}
